@@ -4,3 +4,9 @@ import Cvss.Gen.V20
 import Cvss.Gen.V30
 import Cvss.Gen.V31
 import Cvss.Gen.V40
+import Cvss.Model.Obj
+import Cvss.Model.Parse
+import Cvss.Model.SrcTie
+import Cvss.Spec.Metrics
+import Cvss.Spec.Grammar
+import Cvss.Proofs.Contract
